@@ -60,6 +60,19 @@ theorem C12_hash_inj_full_false : ¬ C12_hash_inj_full := by
   simp only [PyEqH, PyEqHL, PyVal.kind, PyVal.numHash, true_and, and_true] at this
   exact absurd this.1 (by decide)
 
+/-- **F3, exactly.** Two tuples (or two lists) get the same fingerprint iff the *concatenations* of their
+elements' `str(hash_value(·))` coincide — where the cuts between elements fall is lost.  This is the
+class the check's F3 classifier accepts; everything else is covered by `C12_hash_inj_partial`. -/
+theorem C12_hash_seq_iff (S : Bytes → Prop) (hS : InjOn sha S) (xs ys : List PyVal)
+    (cx : S (utf8 (hashRenders sha xs).flatten)) (cy : S (utf8 (hashRenders sha ys).flatten)) :
+    (hashValue sha (.tuple xs) = hashValue sha (.tuple ys) ↔
+      (hashRenders sha xs).flatten = (hashRenders sha ys).flatten) ∧
+    (hashValue sha (.list xs) = hashValue sha (.list ys) ↔
+      (hashRenders sha xs).flatten = (hashRenders sha ys).flatten) := by
+  simp only [hashValue, joinSep_gen, HV.hex.injEq]
+  exact ⟨⟨fun h => utf8_inj (hS _ _ cx cy h), fun h => by rw [h]⟩,
+         ⟨fun h => utf8_inj (hS _ _ cx cy h), fun h => by rw [h]⟩⟩
+
 /-- **hash_inj_partial.** Outside the F3 class the property holds: for same-shape values whose
 sequences are *fixed width* (numeric leaves at the same position have equally long decimal hashes;
 every other kind renders with a fixed width anyway), equal fingerprints imply that Python cannot
